@@ -198,7 +198,7 @@ impl Prop for C10 {
     fn plan(tier: Tier) -> Plan {
         Plan {
             shards: tier.pick(4, 16),
-            cases_per_shard: tier.pick(2_500, 15_000),
+            cases_per_shard: tier.pick(2_500, 30_000),
             watchdog: Duration::from_secs(tier.pick(300, 3600)),
         }
     }
@@ -231,6 +231,8 @@ impl Prop for C10 {
         if tier != Tier::Thorough {
             return Vec::new();
         }
-        heap_backend_extra("C10", seed, ev)
+        let mut v = heap_backend_extra("C10", seed, ev);
+        v.extend(fuzz_extra("C10", seed, ev));
+        v
     }
 }
